@@ -83,9 +83,12 @@ class C07(MotionMonitor):
                                                r["B_after"]["fil"] < r["B_before"]["fil"] - 1e-12 for r in tr.steps)
         tr.fw_seen = []         # firmware retract / recover commands the printer has executed before the current step
         prev_fw = []
+        tr.feeds_seen = set([0.0])   # every feed rate (mm/min) the file has set so far
         for r in tr.steps:
             tr.fw_seen.extend(prev_fw)
             prev_fw = list(r.get("a_fw") or [])
+            if r.get("B_after"):
+                tr.feeds_seen.add(r["B_after"]["feed"])
             if r["kind"] == "g":
                 seen_inputs.add(r["cmd"])
             if r["kind"] not in ("g", "at"):
@@ -183,6 +186,15 @@ class C07(MotionMonitor):
                 out.append(viol(tr, r, "retraction-pair-incomplete", "%r" % (gen,)))
                 return out
             unit = r["B_before"]["unit"]
+            # the feed rate of the generated command, read in the unit in force, is a feed rate the file has asked for at some point
+            # (that of the retraction being replayed or undone, or the current one)
+            fgen = w1["F"] * unit
+            stats["c07_pair_feed_rates_compared"] += 1
+            feeds = set(tr.feeds_seen) | set([r["B_after"]["feed"]])
+            if not any(abs(fgen - f) <= 1e-6 * max(1.0, abs(f)) for f in feeds):
+                out.append(viol(tr, r, "pair-feed-rate", "%r: F%r in units of %r mm is %r mm/min; the file has only ever set %r"
+                                % (gen, w1["F"], unit, fgen, sorted(feeds)[:8])))
+                return out
             if not r["B_before"]["abs_e"]:
                 # relative extrusion: the G1 word is an offset; together with the G92 before it the coordinate must end where
                 # the file's coordinate is (retraction: after the command, recovery: before the command)
